@@ -118,13 +118,20 @@ def bterm(x):
     raise HarnessError(f"cannot lift {type(x).__name__} to a symbolic bool")
 
 
+EXTRA_SCALARS = ()   # further symbolic scalar classes (vf.fp.SF registers itself here)
+
+
+def _symtypes():
+    return (SR, SB) + EXTRA_SCALARS
+
+
 def is_sym(x) -> bool:
-    if isinstance(x, (SR, SB)):
+    if isinstance(x, _symtypes()):
         return True
     if isinstance(x, np.ndarray):
         if x.dtype != object:
             return False
-        return any(isinstance(e, (SR, SB)) for e in x.flat)
+        return any(isinstance(e, _symtypes()) for e in x.flat)
     if isinstance(x, (list, tuple)):
         return any(is_sym(e) for e in x)
     return False
@@ -397,6 +404,9 @@ def If(c, a, b):
     ct = bterm(c)
     if isinstance(a, (SB, bool, np.bool_)) and isinstance(b, (SB, bool, np.bool_)):
         return SB(z3.If(ct, bterm(a), bterm(b)))
+    if EXTRA_SCALARS and (isinstance(a, EXTRA_SCALARS) or isinstance(b, EXTRA_SCALARS)):
+        from . import fp
+        return fp.SF(z3.If(ct, fp.fterm(a), fp.fterm(b)))
     na, nb = nanflag(a), nanflag(b)
     nan = None
     if na is not None or nb is not None:
@@ -530,6 +540,9 @@ def spow(a, b):
 def _e_max(a, b):
     if _is_num(a) and _is_num(b):
         return max(a, b)
+    if EXTRA_SCALARS and (isinstance(a, EXTRA_SCALARS) or isinstance(b, EXTRA_SCALARS)):
+        from . import fp
+        return fp.fmax(a, b)
     a, b = lift(a), lift(b)
     return SR(z3.If(a.t >= b.t, a.t, b.t), _or_nan(a.nan, b.nan))
 
@@ -537,6 +550,9 @@ def _e_max(a, b):
 def _e_min(a, b):
     if _is_num(a) and _is_num(b):
         return min(a, b)
+    if EXTRA_SCALARS and (isinstance(a, EXTRA_SCALARS) or isinstance(b, EXTRA_SCALARS)):
+        from . import fp
+        return fp.fmin(a, b)
     a, b = lift(a), lift(b)
     return SR(z3.If(a.t <= b.t, a.t, b.t), _or_nan(a.nan, b.nan))
 
@@ -657,7 +673,7 @@ def _pyuf(ufunc):
 def _strip(x):
     if isinstance(x, SymArray):
         return x.view(np.ndarray)
-    if isinstance(x, (SR, SB)):
+    if isinstance(x, _symtypes()):
         a = np.empty((), dtype=object)
         a[()] = x
         return a
@@ -693,7 +709,7 @@ def _apply_ufunc(ufunc, method, inputs, kw):
         kw.pop("where", None)
     ins = [_strip(i) for i in inputs]
     any_obj = any(isinstance(i, np.ndarray) and i.dtype == object for i in ins) or any(
-        isinstance(i, (SR, SB)) for i in inputs
+        isinstance(i, _symtypes()) for i in inputs
     )
     if out is not None:
         outs = out if isinstance(out, tuple) else (out,)
@@ -1073,6 +1089,7 @@ class Engine:
         self.in_path = False
         self.assume_div_nonzero = True
         self.portfolio = True
+        self.uncertain = False
         self.ext_timeout_s = 120
         self._quick = False
         self.flatten_div = False
@@ -1100,6 +1117,7 @@ class Engine:
         self._axioms_seen = set()
         self._axioms_alive = []
         self._fresh = {}
+        self.uncertain = False
         self.purify = False
         self.purified = {}
         self.purified_by_var = {}
@@ -1197,12 +1215,18 @@ class Engine:
             rf = self._acheck(z3.Not(c))
             if rf != "unsat":
                 rf = self._check_quick(z3.Not(c))
+                if rf == "unknown":
+                    rf = self._check(z3.Not(c))      # once more with the full budget (load-independent verdicts)
             if rf == "unsat":
                 d = True
             else:
                 rt = self._acheck(c)
                 if rt != "unsat":
                     rt = self._check_quick(c)
+                    if rt == "unknown":
+                        rt = self._check(c)
+                if rf == "unknown" or rt == "unknown":
+                    self.uncertain = True            # a branch was taken without knowing that it is feasible
                 if rt == "unsat":
                     d = False
                 else:
